@@ -734,12 +734,14 @@ class GSet(_SetBase):
         return GSet._from(dict(self.m))
 
     def add(self, x):
+        self._ver = getattr(self, '_ver', 0) + 1
         d = E.dag
         g = E.g()
         for h, v in E.inst(x):
             self.m[v] = d.or_(self.m.get(v, FALSE), d.and_(g, h))
 
     def discard(self, x):
+        self._ver = getattr(self, '_ver', 0) + 1
         d = E.dag
         g = E.g()
         for h, v in E.inst(x):
@@ -747,6 +749,7 @@ class GSet(_SetBase):
                 self.m[v] = d.and_(self.m[v], d.and_(g, h) ^ 1)
 
     def remove(self, x):
+        self._ver = getattr(self, '_ver', 0) + 1
         d = E.dag
         g = E.g()
         for h, v in E.inst(x):
@@ -756,6 +759,7 @@ class GSet(_SetBase):
                 self.m[v] = d.and_(self.m[v], w ^ 1)
 
     def clear(self):
+        self._ver = getattr(self, '_ver', 0) + 1
         d = E.dag
         g = E.g()
         for e in self.m:
@@ -780,6 +784,7 @@ class GSet(_SetBase):
             alts.append((chosen, e))
             none_before = d.and_(none_before, chosen ^ 1)
         if remove:
+            self._ver = getattr(self, '_ver', 0) + 1
             for c, e in alts:
                 self.m[e] = d.and_(self.m[e], d.and_(g, c) ^ 1)
         return E.mk(alts)
@@ -788,6 +793,7 @@ class GSet(_SetBase):
         return self.choose(True)
 
     def update(self, *others):
+        self._ver = getattr(self, '_ver', 0) + 1
         d = E.dag
         g = E.g()
         for o in others:
@@ -799,6 +805,7 @@ class GSet(_SetBase):
         return self
 
     def __isub__(self, other):
+        self._ver = getattr(self, '_ver', 0) + 1
         d = E.dag
         g = E.g()
         for e, p in self._pres(other).items():
@@ -807,6 +814,7 @@ class GSet(_SetBase):
         return self
 
     def __iand__(self, other):
+        self._ver = getattr(self, '_ver', 0) + 1
         d = E.dag
         g = E.g()
         b = self._pres(other)
@@ -1033,7 +1041,10 @@ class GList:
         d = E.dag
         if g == TRUE:
             self.alts = self._norm(newalts)
+            self.gseq = None
         else:
+            if self.alts is None:
+                self._need_alts()
             self.alts = self._norm([(d.and_(g, h), t) for h, t in newalts] + [(d.and_(g ^ 1, h), t) for h, t in self.alts])
 
     def append(self, x):
@@ -1203,23 +1214,35 @@ class GList:
 ORDER = {'mode': 'fixed', 'max': 3, 'n': 0}
 
 
-def _perm_iter(items):
-    """iterate a set in a symbolic order: union over all permutations of the candidate elements"""
+def _perm_iter(items, owner=None):
+    """iterate a set in a symbolic order: union over all permutations of the candidate elements. The
+    order is a property of the set object: as long as the object is not modified every iteration over
+    it uses the same (symbolic) permutation, as in CPython; a copy or a modified set gets a fresh one."""
     d = E.dag
     k = len(items)
     if ORDER['mode'] != 'symbolic' or k < 2 or k > ORDER['max']:
         return items
-    perms = list(_it.permutations(range(k)))
-    ORDER['n'] += 1
-    alts = []
-    nb = TRUE
-    for i, p in enumerate(perms):
-        if i == len(perms) - 1:
-            alts.append((nb, p))
-        else:
-            v = E.fresh('ord%d_%d' % (ORDER['n'], i))
-            alts.append((d.and_(nb, v), p))
-            nb = d.and_(nb, v ^ 1)
+    cached = getattr(owner, '_ord', None) if owner is not None else None
+    key = (getattr(owner, '_ver', 0), tuple(e for _, e in items)) if owner is not None else None
+    if cached is not None and cached[0] == key:
+        alts = cached[1]
+    else:
+        perms = list(_it.permutations(range(k)))
+        ORDER['n'] += 1
+        alts = []
+        nb = TRUE
+        for i, p in enumerate(perms):
+            if i == len(perms) - 1:
+                alts.append((nb, p))
+            else:
+                v = E.fresh('ord%d_%d' % (ORDER['n'], i))
+                alts.append((d.and_(nb, v), p))
+                nb = d.and_(nb, v ^ 1)
+        if owner is not None:
+            try:
+                owner._ord = (key, alts)
+            except AttributeError:
+                pass
     out = []
     for j in range(k):
         pres = TRUE if all(pp == TRUE for pp, _ in items) else d.any_(d.and_(g, items[p[j]][0]) for g, p in alts)
@@ -1231,7 +1254,7 @@ def _perm_iter(items):
 def ITER(x):
     """-> list of (guard, element)"""
     if isinstance(x, (GSet, FSet)):
-        return _perm_iter(x.iterate())
+        return _perm_iter(x.iterate(), x)
     if isinstance(x, (GSet, FSet, GDict, GList)):
         return x.iterate()
     if isinstance(x, U):
@@ -1811,6 +1834,15 @@ def CALL(f, *args, **kwargs):
         return E.lift(f, args, kwargs)
     r = f(*args, **kwargs)
     return wrap(r)
+
+
+LOGGING = {'mode': 'skip'}      # 'skip': log(...) arguments are not evaluated; 'eval': evaluated as written
+
+
+def LOGCALL(thunk):
+    if LOGGING['mode'] == 'skip':
+        return None
+    return thunk()
 
 
 def CALLM(obj, name, *args, **kwargs):
